@@ -1,0 +1,181 @@
+#pragma once
+
+// Verification-only (YACLIB_VERIF, fiber backend), see VerifSyncHook in yaclib/fault/inject.hpp.
+//
+// VerifAtomic<T> sits between the fault-injecting wrapper yaclib::detail::Atomic<Impl, T> and the fiber implementation
+// fiber::Atomic<T>: every operation is forwarded unchanged and then reported together with its memory order.  The
+// report happens inside the wrapper's YACLIB_INJECT_FAULT(...) statement, i.e. with no fiber switch between the
+// operation and its report.  yaclib_std::atomic<T> is routed through it by the two specializations at the end of this
+// file.  Only the non-volatile overloads are provided.
+
+#include <yaclib/fault/detail/atomic.hpp>
+#include <yaclib/fault/detail/fiber/atomic.hpp>
+#include <yaclib/fault/inject.hpp>
+
+#include <cstddef>
+#include <type_traits>
+#include <utility>
+
+namespace yaclib::detail {
+namespace fiber {
+
+template <typename T>
+class VerifAtomic : public Atomic<T> {
+  using Base = Atomic<T>;
+
+ public:
+  using Base::Base;
+
+  T operator=(T desired) noexcept {
+    auto r = Base::operator=(desired);
+    YACLIB_VERIF_SYNC(1, this, std::memory_order_seq_cst);
+    return r;
+  }
+
+  void store(T desired, std::memory_order order) noexcept {
+    Base::store(desired, order);
+    YACLIB_VERIF_SYNC(1, this, order);
+  }
+
+  T load(std::memory_order order) const noexcept {
+    auto r = Base::load(order);
+    YACLIB_VERIF_SYNC(0, this, order);
+    return r;
+  }
+
+  T exchange(T desired, std::memory_order order) noexcept {
+    auto r = Base::exchange(desired, order);
+    YACLIB_VERIF_SYNC(2, this, order);
+    return r;
+  }
+
+  bool compare_exchange_weak(T& expected, T desired, std::memory_order success, std::memory_order failure) noexcept {
+    auto r = Base::compare_exchange_weak(expected, desired, success, failure);
+    YACLIB_VERIF_SYNC(r ? 2 : 0, this, r ? success : failure);
+    return r;
+  }
+  bool compare_exchange_weak(T& expected, T desired, std::memory_order order) noexcept {
+    auto r = Base::compare_exchange_weak(expected, desired, order);
+    YACLIB_VERIF_SYNC(r ? 2 : 3, this, order);
+    return r;
+  }
+  bool compare_exchange_strong(T& expected, T desired, std::memory_order success, std::memory_order failure) noexcept {
+    auto r = Base::compare_exchange_strong(expected, desired, success, failure);
+    YACLIB_VERIF_SYNC(r ? 2 : 0, this, r ? success : failure);
+    return r;
+  }
+  bool compare_exchange_strong(T& expected, T desired, std::memory_order order) noexcept {
+    auto r = Base::compare_exchange_strong(expected, desired, order);
+    YACLIB_VERIF_SYNC(r ? 2 : 3, this, order);
+    return r;
+  }
+
+  // read-modify-write operations exist for some T only; each is a template that is well-formed iff Base has it
+  template <typename A, typename B = Base>
+  auto fetch_add(A arg, std::memory_order order) noexcept -> decltype(std::declval<B&>().fetch_add(arg, order)) {
+    auto r = Base::fetch_add(arg, order);
+    YACLIB_VERIF_SYNC(2, this, order);
+    return r;
+  }
+  template <typename A, typename B = Base>
+  auto fetch_sub(A arg, std::memory_order order) noexcept -> decltype(std::declval<B&>().fetch_sub(arg, order)) {
+    auto r = Base::fetch_sub(arg, order);
+    YACLIB_VERIF_SYNC(2, this, order);
+    return r;
+  }
+  template <typename A, typename B = Base>
+  auto fetch_and(A arg, std::memory_order order) noexcept -> decltype(std::declval<B&>().fetch_and(arg, order)) {
+    auto r = Base::fetch_and(arg, order);
+    YACLIB_VERIF_SYNC(2, this, order);
+    return r;
+  }
+  template <typename A, typename B = Base>
+  auto fetch_or(A arg, std::memory_order order) noexcept -> decltype(std::declval<B&>().fetch_or(arg, order)) {
+    auto r = Base::fetch_or(arg, order);
+    YACLIB_VERIF_SYNC(2, this, order);
+    return r;
+  }
+  template <typename A, typename B = Base>
+  auto fetch_xor(A arg, std::memory_order order) noexcept -> decltype(std::declval<B&>().fetch_xor(arg, order)) {
+    auto r = Base::fetch_xor(arg, order);
+    YACLIB_VERIF_SYNC(2, this, order);
+    return r;
+  }
+
+  template <typename B = Base>
+  auto operator++() noexcept -> decltype(++std::declval<B&>()) {
+    auto r = ++static_cast<Base&>(*this);
+    YACLIB_VERIF_SYNC(2, this, std::memory_order_seq_cst);
+    return r;
+  }
+  template <typename B = Base>
+  auto operator++(int) noexcept -> decltype(std::declval<B&>()++) {
+    auto r = static_cast<Base&>(*this)++;
+    YACLIB_VERIF_SYNC(2, this, std::memory_order_seq_cst);
+    return r;
+  }
+  template <typename B = Base>
+  auto operator--() noexcept -> decltype(--std::declval<B&>()) {
+    auto r = --static_cast<Base&>(*this);
+    YACLIB_VERIF_SYNC(2, this, std::memory_order_seq_cst);
+    return r;
+  }
+  template <typename B = Base>
+  auto operator--(int) noexcept -> decltype(std::declval<B&>()--) {
+    auto r = static_cast<Base&>(*this)--;
+    YACLIB_VERIF_SYNC(2, this, std::memory_order_seq_cst);
+    return r;
+  }
+
+  template <typename A, typename B = Base>
+  auto operator+=(A arg) noexcept -> decltype(std::declval<B&>() += arg) {
+    auto r = Base::operator+=(arg);
+    YACLIB_VERIF_SYNC(2, this, std::memory_order_seq_cst);
+    return r;
+  }
+  template <typename A, typename B = Base>
+  auto operator-=(A arg) noexcept -> decltype(std::declval<B&>() -= arg) {
+    auto r = Base::operator-=(arg);
+    YACLIB_VERIF_SYNC(2, this, std::memory_order_seq_cst);
+    return r;
+  }
+  template <typename A, typename B = Base>
+  auto operator&=(A arg) noexcept -> decltype(std::declval<B&>() &= arg) {
+    auto r = Base::operator&=(arg);
+    YACLIB_VERIF_SYNC(2, this, std::memory_order_seq_cst);
+    return r;
+  }
+  template <typename A, typename B = Base>
+  auto operator|=(A arg) noexcept -> decltype(std::declval<B&>() |= arg) {
+    auto r = Base::operator|=(arg);
+    YACLIB_VERIF_SYNC(2, this, std::memory_order_seq_cst);
+    return r;
+  }
+  template <typename A, typename B = Base>
+  auto operator^=(A arg) noexcept -> decltype(std::declval<B&>() ^= arg) {
+    auto r = Base::operator^=(arg);
+    YACLIB_VERIF_SYNC(2, this, std::memory_order_seq_cst);
+    return r;
+  }
+};
+
+}  // namespace fiber
+
+// yaclib_std::atomic<T> is yaclib::detail::Atomic<fiber::Atomic<T>, T>: route it through VerifAtomic<T>
+template <typename T>
+class Atomic<fiber::Atomic<T>, T> : public Atomic<fiber::VerifAtomic<T>, T> {
+  using Base = Atomic<fiber::VerifAtomic<T>, T>;
+
+ public:
+  using Base::Base;
+};
+
+template <typename U>
+class Atomic<fiber::Atomic<U*>, U*> : public Atomic<fiber::VerifAtomic<U*>, U*> {
+  using Base = Atomic<fiber::VerifAtomic<U*>, U*>;
+
+ public:
+  using Base::Base;
+};
+
+}  // namespace yaclib::detail
